@@ -694,6 +694,9 @@ class simplify_chained_calls(FuncADLNodeTransformer):
         Only works if index is a non-negative integer constant - anything else
         (a variable, a negative index, a slice) is left as a subscript.
         """
+        if any(isinstance(e, ast.Starred) for e in v.elts):
+            # `(*pair, x)[1]`: how many values the display holds is only known when it runs.
+            return ast.Subscript(v, s, ast.Load())  # type: ignore
         n = _constant_index(s, len(v.elts))
         if n is None:
             return ast.Subscript(v, s, ast.Load())  # type: ignore
@@ -712,6 +715,9 @@ class simplify_chained_calls(FuncADLNodeTransformer):
         Only works if index is a non-negative integer constant - anything else
         (a variable, a negative index, a slice) is left as a subscript.
         """
+        if any(isinstance(e, ast.Starred) for e in v.elts):
+            # `[*pair, x][1]`: how many values the display holds is only known when it runs.
+            return ast.Subscript(v, s, ast.Load())  # type: ignore
         n = _constant_index(s, len(v.elts))
         if n is None:
             return ast.Subscript(v, s, ast.Load())  # type: ignore
